@@ -130,3 +130,12 @@ def run(chk):
     inits.rule_bindings(chk, P, 'H2', select=lambda k, v: bool(HELPER_SLOTS.match(k.lower())) or
                         bool(re.search(r'KEYEXP|SUBKEY|KEY_SCHED|ONE_BLOCK|_PRE\b|PRECOMP', k)), floor=250)
     inits.rule_handlers(chk, P, 'H3', 'H3b', 'H3c')
+
+
+_run_inner = run
+
+
+def run(chk):
+    _run_inner(chk)
+    from . import padding
+    padding.rule_sha_padding(chk, cf.PROGRAM[0] or cf.Program())
